@@ -196,12 +196,12 @@ def c09(tier):
     from . import groups as G
     run = P.Run("C09", tier, ["C09_"])
     s = run.seed
-    defs = F.curated() + F.random_family(1600 + s, sizes(tier, 60, 250), nmax=4, publish=True)
+    defs = F.curated() + F.random_family(1600 + s, sizes(tier, 60, 120), nmax=4, publish=True)
     run.add_mc(F.curated() + F.random_family(3100 + s, sizes(tier, 30, 120), nmax=4), ["C09"], max_pause=1,
                replay=(tier != "quick"))
     run.add_jobs(jobs_for(defs, {"pause": 1, "max_nodes": sizes(tier, 1500, 6000)}, s, ("yaql", "jinja")))
     run.add_jobs(jobs_for(F.curated_items() + F.curated_retry() + F.curated_ctx(), {"pause": 1, "max_nodes": sizes(tier, 1000, 6000)}, s))
-    gs, infeasible = G.pause_groups(run.results, sizes(tier, 40, 120), random.Random(s))
+    gs, infeasible = G.pause_groups(run.results, sizes(tier, 40, 60), random.Random(s))
     run.extra["twin_infeasible"] = infeasible
     run.add_groups(gs)
     return run.finish("model_checking",
@@ -442,10 +442,10 @@ def c17(tier):
     run = P.Run("C17", tier, ["C17_"], keep_obs=True)
     s = run.seed
     # Spec B with the Rerun action: C17 clauses model-checked, behaviours replayed into the real conductor
-    run.add_mc((F.curated()[:16] if tier == "quick" else F.curated() + F.curated_retry()[:4] + F.random_family(3500 + s, 150, nmax=4)),
+    run.add_mc((F.curated()[:16] if tier == "quick" else F.curated() + F.curated_retry()[:4] + F.random_family(3500 + s, 60, nmax=4)),
                ["C17"], max_rerun=1, max_steps=18, replay=True)
-    defs = F.curated() + F.curated_ctx() + F.random_family(2400 + s, sizes(tier, 40, 500), nmax=4, publish=True)
-    env = {"rerun": 1, "rerun_tasks": True, "max_nodes": sizes(tier, 1200, 10000)}
+    defs = F.curated() + F.curated_ctx() + F.random_family(2400 + s, sizes(tier, 40, 150), nmax=4, publish=True)
+    env = {"rerun": 1, "rerun_tasks": True, "max_nodes": sizes(tier, 1200, 4000)}
     run.add_jobs(jobs_for(defs, env, s, ("yaql", "jinja")))
     run.add_jobs(jobs_for(F.curated_items() + F.curated_retry() + F.fault_family(("undef",), ("when", "publish", "output")),
                           dict(env, max_nodes=sizes(tier, 700, 8000), **({"sample": 4} if tier == "quick" else {})), s))
@@ -460,9 +460,9 @@ def c17(tier):
     for nm, ft in (("split_join", "t5"), ("two_roots_split_join", "z"), ("join1_two_roots", "t3"), ("diamond", "t4")):
         d = [x for x in F.curated() if x["name"] == nm][0]
         for k, pre in enumerate(F.rerun_prefixes(d, ft)):
-            pj.append((d, {"prefix": pre, "lazy": True, "max_nodes": sizes(tier, 300, 1500)}, "yaql", "task", s * 1000 + k))
+            pj.append((d, {"prefix": pre, "lazy": True, "max_nodes": sizes(tier, 300, 600)}, "yaql", "task", s * 1000 + k))
     run.add_jobs(pj)
-    gs, skipped = G.rerun_groups(run.results, sizes(tier, 30, 300), random.Random(s))
+    gs, skipped = G.rerun_groups(run.results, sizes(tier, 30, 80), random.Random(s))
     run.extra["rerun_groups_skipped"] = skipped
     run.add_groups(gs)
     return run.finish("model_checking",
